@@ -27,6 +27,14 @@ def varBlocked (n : Name) : List AFrame → Bool
   | [] => false
   | s :: rest => badFor s n || (!s.kind.stopsHoisting && varBlocked n rest)
 
+theorem symsExt_pinLinks (fuel : Nat) (syms : Syms) (t : Nat) : SymsExt syms (pinLinks fuel syms t) :=
+  pinLinks_ind (fun a => SymsExt syms a) (fun a i h => h.trans (SymsExt.pin a i)) fuel syms t (SymsExt.refl _)
+
+theorem symsExt_pinIfWith (f : Frame) (syms : Syms) (i : Nat) : SymsExt syms (pinIfWith f syms i) := by
+  unfold pinIfWith; split
+  · exact SymsExt.pin _ _
+  · exact SymsExt.refl _
+
 /-- an enclosing scope during hoistSymbols, compared with what the parse pass left (`af`) -/
 structure HRelF (syms : Syms) (f : Frame) (af : AFrame) : Prop where
   kind : f.kind = af.kind
@@ -219,7 +227,12 @@ theorem hoistUp_kinds (name : Name) (mref orig : Nat) (sl : Bool) :
         · split at h
           · -- merged into the existing symbol
             cases h
-            have hx2 : SymsExt st1.syms (setLink st1.syms mref (some ex)) := SymsExt.setLink _ _ _
+            have hx2 : SymsExt st1.syms
+                (setLink (if isPinned st1.syms mref = true then pinLinks (st1.syms.length + 1) st1.syms ex else st1.syms)
+                  mref (some ex)) := by
+              split
+              · exact (symsExt_pinLinks _ _ _).trans (SymsExt.setLink _ _ _)
+              · exact SymsExt.setLink _ _ _
             refine ⟨⟨?_, hrest1.ext hx2⟩, hx1.trans hx2, Or.inl he1⟩
             rw [insert_same hl]
             exact hs1.ext hx2
@@ -240,7 +253,11 @@ theorem hoistUp_kinds (name : Name) (mref orig : Nat) (sl : Bool) :
             · next hpass =>
               -- a catch identifier or "arguments": the existing symbol is merged into the hoisted one
               have hp : passes ek = true := passes_of hpass
-              have hx2 : SymsExt st1.syms (setLink st1.syms ex (some mref)) := SymsExt.setLink _ _ _
+              have hx2 : SymsExt st1.syms
+                  (setLink (if ek = SK.arguments then pin st1.syms mref else st1.syms) ex (some mref)) := by
+                split
+                · exact (SymsExt.pin _ _).trans (SymsExt.setLink _ _ _)
+                · exact SymsExt.setLink _ _ _
               have hstat : alookup name as.mem = some ek ∨ ek = .hoisted := by
                 rcases hdev with hd | ⟨hd, _⟩
                 · exact Or.inl hd
@@ -249,10 +266,12 @@ theorem hoistUp_kinds (name : Name) (mref orig : Nat) (sl : Bool) :
                 rcases hstat with hd | hd
                 · exact hd
                 · subst hd; simp [passes] at hp
-              have hins : HRelF (setLink st1.syms ex (some mref)) { s with members := Scopes.insert name mref s.members } as :=
+              have hins : HRelF (setLink (if ek = SK.arguments then pin st1.syms mref else st1.syms) ex (some mref))
+                  { s with members := Scopes.insert name mref s.members } as :=
                 (hs1.ext hx2).insert (infoOf_ext hx2 hm1) (by rw [hstat']; exact Or.inl hp)
               refine hcont { s with members := Scopes.insert name mref s.members }
-                { st1 with syms := setLink st1.syms ex (some mref) } hins (hx1.trans hx2) he1 ?_
+                { st1 with syms := setLink (if ek = SK.arguments then pin st1.syms mref else st1.syms) ex (some mref) }
+                hins (hx1.trans hx2) he1 ?_
                 (by simp [badFor, hstat', badKind, hp]) h
               intro _
               have : ({ s with members := Scopes.insert name mref s.members } : Frame) =
@@ -367,9 +386,11 @@ theorem hoistMember_kinds {anc anc' : List Frame} {aanc : List AFrame} {f f' : F
               · cases h
               · next anc1 st1 hu =>
                 cases h
-                have hx0 : SymsExt st.syms (st.syms ++ [⟨.hoisted, sym.name, none, false⟩]) := SymsExt.append _ _
+                have hx00 : SymsExt st.syms (st.syms ++ [⟨.hoisted, sym.name, none, false⟩]) := SymsExt.append _ _
+                have hxp := symsExt_pinIfWith f (st.syms ++ [⟨.hoisted, sym.name, none, false⟩]) st.syms.length
+                have hx0 := hx00.trans hxp
                 obtain ⟨r1, r2, r3⟩ := hoistUp_kinds _ _ _ _ _ _ (ap :: aprest) _ _ _ hu (hrel.ext hx0)
-                  (by rw [hsn]; exact infoOf_new _ _ _)
+                  (by have := infoOf_ext hxp (infoOf_new st.syms SK.hoisted sym.name); rw [hsn] at this ⊢; exact this)
                 refine ⟨r1, hx0.trans r2, ⟨hf.kind, hf.strict, (hf.mem.ext hx0).ext r2, (hf.rep.ext hx0).ext r2⟩, Or.inl ?_⟩
                 rcases r3 with r3 | ⟨_, r4, _⟩
                 · exact r3
@@ -383,7 +404,10 @@ theorem hoistMember_kinds {anc anc' : List Frame} {aanc : List AFrame} {f f' : F
                 rw [← hsk]
                 exact isHoisted_cases hnh hnf
               subst hkh
-              obtain ⟨r1, r2, r3⟩ := hoistUp_kinds _ _ _ _ _ _ (ap :: aprest) _ _ _ hu hrel (by rw [hsn]; exact hm)
+              have hxp := symsExt_pinIfWith f st.syms mref
+              obtain ⟨r1, r2', r3⟩ := hoistUp_kinds _ _ _ _ _ _ (ap :: aprest) _ _ _ hu (hrel.ext hxp)
+                (by rw [hsn]; exact infoOf_ext hxp hm)
+              have r2 := hxp.trans r2'
               refine ⟨r1, r2, hf.ext r2, ?_⟩
               rcases r3 with r3 | ⟨r3, _, r5⟩
               · exact Or.inl r3
